@@ -365,9 +365,39 @@ class G:
                     pos += sz
                     self.features.add("pk:physconst")
                     continue
+            # TABLE-KEY + TABLE-STRUCT pair
+            if not must_static and r >= 92 and self.opts.get("tables", True):
+                tk, ts, tval, kval = self.table_group(slot_tail)
+                ksz = (tk["table"]["keydop"]["dct"]["bl"] + 7) // 8
+                if not dynamic:
+                    tk["pos"] = pos
+                    tk["_end"] = pos + ksz
+                    static_layout.append(tk)
+                    pos += ksz
+                else:
+                    dyn_params.append(tk)
+                dynamic = True
+                dyn_params.append(ts)
+                values[ts["name"]] = tval
+                if kval is not None:
+                    values[tk["name"]] = kval
+                continue
             # value-carrying slot
             complex_ok = depth > 0
-            if complex_ok and r < 55:
+            pk_kind = "value"
+            if r in (60, 61) and self.opts.get("dtc", True):
+                dop, val, size = self.dtc_dop()
+                bit = 0
+            elif r in (58, 59) and self.opts.get("system", True):
+                # a plain 16 bit unsigned DOP can hold every predefined numeric system value (SECOND ... YEAR)
+                dop = {"k": "simple", "id": self.nid("dop"),
+                       "dct": {"t": "std", "bt": "A_UINT32", "bl": 16, "enc": None, "hl": self.pick([None, False])},
+                       "compu": {"c": "IDENTICAL"}, "pt": "A_UINT32"}
+                val = self.simple_value(dop)
+                bit, size = 0, (dop["dct"]["bl"] + 7) // 8
+                pk_kind = "system"
+                self.features.add("pk:system")
+            elif complex_ok and r < 55:
                 dop, val, size = self.complex(depth - 1, must_static or False, slot_tail and not must_static,
                                               dynamic_ctx=dynamic)
                 bit = 0
@@ -408,8 +438,11 @@ class G:
                         values[lk["name"]] = 8 * len(raw)
                         self.features.add("lenkey-explicit")
             name = self.nid("p")
-            p = {"pk": "value", "name": name, "pos": None, "bit": bit, "dop": dop, "default": None}
-            if dop["k"] == "simple" and dop["dct"]["t"] == "std" and self.chance(12):
+            p = {"pk": pk_kind, "name": name, "pos": None, "bit": bit, "dop": dop, "default": None}
+            if pk_kind == "system":
+                p["sys"] = self.pick(["SECOND", "MINUTE", "HOUR", "DAY", "MONTH", "YEAR", "CENTURY", "WEEK",
+                                      "VENDORSPECIFIC", "MYSYSPARAM"])
+            if pk_kind == "value" and dop["k"] == "simple" and dop["dct"]["t"] == "std" and self.chance(12):
                 p["default"] = val if self.chance(50) else self.simple_or_same(dop, val)
                 self.features.add("default-value")
             if size is None or dynamic:
@@ -465,6 +498,74 @@ class G:
         except AssertionError:
             return val
 
+    def dtc_dop(self):
+        bl = self.pick([16, 24, 32])
+        codes = sorted({self.d(st.integers(0, (1 << bl) - 1)) for _ in range(self.d(st.integers(1, 4)))})
+        dtcs = [[f"DTC{i}", c] for i, c in enumerate(codes)]
+        dop = {"k": "dtc", "id": self.nid("dtcdop"),
+               "dct": {"t": "std", "bt": "A_UINT32", "bl": bl, "enc": None, "hl": self.pick([None, False])},
+               "dtcs": dtcs}
+        name, code = self.pick(dtcs)
+        val = code if self.chance(60) else name
+        self.features.add("dtc")
+        return dop, val, bl // 8
+
+    def table_group(self, tail: bool):
+        kbits = self.pick([8, 8, 16])
+        kdop = {"k": "simple", "id": self.nid("dop"),
+                "dct": {"t": "std", "bt": "A_UINT32", "bl": kbits, "enc": None, "hl": self.pick([None, False])},
+                "compu": {"c": "IDENTICAL"}, "pt": "A_UINT32"}
+        rows = []
+        keys = sorted({self.d(st.integers(0, (1 << kbits) - 1)) for _ in range(self.d(st.integers(1, 3)))})
+        for i, kv in enumerate(keys):
+            row = {"name": f"row{i}", "id": self.nid("tr"), "key": kv, "st": None, "dop": None}
+            if self.chance(70):
+                row["st"], _, _ = self.struct(0, not tail, tail)
+            else:
+                row["dop"] = self.simple_int_dop(32)
+            rows.append(row)
+        table = {"k": "table", "id": self.nid("tab"), "keydop": kdop, "rows": rows}
+        kname = self.nid("tk")
+        tk = {"pk": "tablekey", "name": kname, "id": self.nid("tkid"), "pos": None, "bit": 0, "table": table, "row": None}
+        ts = {"pk": "tablestruct", "name": self.nid("ts"), "pos": None, "key": kname, "snref": self.chance(40)}
+        row = self.pick(rows)
+        if self.opts.get("static_table_row") and self.chance(40):
+            tk["row"] = row["name"]
+            self.features.add("static-table-row")
+        content = self.values_for_struct(row["st"]) if row["st"] is not None else self.simple_value(row["dop"])
+        kval = row["name"] if self.chance(35) else None
+        self.features.add("table")
+        return tk, ts, [row["name"], content], kval
+
+    def emfield(self, tail: bool):
+        """dynamic end-marker field; at the tail of the PDU no termination value is on the wire, otherwise
+        the field is wrapped into a structure with BYTE-SIZE that has room for the termination value (E17)"""
+        tv = self.pick([0xFF, 0x00])
+        tdop = {"k": "simple", "id": self.nid("dop"),
+                "dct": {"t": "std", "bt": "A_UINT32", "bl": 8, "enc": None, "hl": None},
+                "compu": {"c": "IDENTICAL"}, "pt": "A_UINT32"}
+        leaf = self.simple_int_dop(16, identical=True)
+        leaf["dct"].pop("mask", None)
+        cv = self.pick([0x01, 0x10, 0x7F])
+        st_ = {"k": "struct", "id": self.nid("st"), "bs": None, "params": [
+            {"pk": "const", "name": self.nid("cc"), "pos": 0, "bit": 0,
+             "dct": {"t": "std", "bt": "A_UINT32", "bl": 8, "enc": None, "hl": None}, "v": cv},
+            {"pk": "value", "name": self.nid("p"), "pos": 1, "bit": 0, "dop": leaf, "default": None}]}
+        isz = 1 + (leaf["dct"]["bl"] + 7) // 8
+        n = self.d(st.integers(0, 3))
+        vals = [self.values_for_struct(st_) for _ in range(n)]
+        em = {"k": "emfield", "id": self.nid("em"), "st": st_, "tdop": tdop, "tv": tv}
+        self.features.add("emfield")
+        if n >= 2:
+            self.features.add("field>=2")
+        if tail:
+            return em, vals, None
+        total = n * isz + 1 + self.pick([0, 1])
+        wrap = {"k": "struct", "id": self.nid("st"), "bs": total, "params": [
+            {"pk": "value", "name": self.nid("p"), "pos": None, "bit": 0, "dop": em, "default": None}]}
+        self.features.add("BYTE-SIZE")
+        return wrap, {wrap["params"][0]["name"]: vals}, total
+
     # ------------------------------------------------------------------ complex DOPs
     def struct(self, depth: int, must_static: bool, tail: bool, min_prefix: bool = False):
         params, values, size = self.params(depth, must_static, tail, max_slots=4)
@@ -478,11 +579,15 @@ class G:
 
     def complex(self, depth: int, must_static: bool, tail: bool, dynamic_ctx: bool):
         kinds = ["struct", "struct", "sfield"]
+        if self.opts.get("emfield", True):
+            kinds += ["emfield"]
         if not must_static:
             kinds += ["dlfield", "mux", "mux"]
             if tail:
                 kinds += ["eopf"]
         k = self.pick(kinds)
+        if k == "emfield":
+            return self.emfield(tail and not must_static)
         if k == "struct":
             return self.struct(depth, must_static, tail)
         if k == "sfield":
@@ -562,10 +667,16 @@ class G:
     def values_for_struct(self, s) -> dict:
         out = {}
         for p in s["params"]:
-            if p["pk"] == "value":
+            if p["pk"] in ("value", "system"):
                 if p.get("default") is not None and self.chance(50):
                     continue
                 out[p["name"]] = self.value_for_dop(p["dop"])
+            elif p["pk"] == "tablestruct":
+                tk = [q for q in s["params"] if q["pk"] == "tablekey" and q["name"] == p["key"]][0]
+                rows = tk["table"]["rows"]
+                row = [r for r in rows if r["name"] == tk["row"]][0] if tk.get("row") else self.pick(rows)
+                content = self.values_for_struct(row["st"]) if row["st"] is not None else self.simple_value(row["dop"])
+                out[p["name"]] = [row["name"], content]
         return out
 
     def value_for_dop(self, dop):
@@ -584,6 +695,9 @@ class G:
                     return v
                 return self.fixed_string_like(dct)
             return self.dyn_value(dct)
+        if k == "dtc":
+            name, code = self.pick(dop["dtcs"])
+            return code if self.chance(60) else name
         if k == "struct":
             return self.values_for_struct(dop)
         if k == "sfield":
@@ -623,6 +737,19 @@ def message_case(draw, depth: int = 2, response_pct: int = 35, opts: Optional[di
     msg = {"kind": "response" if response else "request", "params": params}
     if response:
         msg["rtype"] = "POS-RESPONSE"
+        if g.chance(30) and (opts or {}).get("nrc", True):
+            # negative response: an NRC-CONST parameter deliberately overlapped by a VALUE parameter (E10a);
+            # both are appended behind the last static parameter with explicit positions where possible
+            msg["rtype"] = "NEG-RESPONSE"
+            if size is not None:
+                vals = sorted({draw(st.integers(0, 255)) for _ in range(draw(st.integers(1, 3)))})
+                dct = {"t": "std", "bt": "A_UINT32", "bl": 8, "enc": None, "hl": None}
+                nrc = {"pk": "nrc", "name": g.nid("nrc"), "pos": size, "bit": 0, "dct": dct, "vals": vals}
+                vdop = {"k": "simple", "id": g.nid("dop"), "dct": dict(dct), "compu": {"c": "IDENTICAL"}, "pt": "A_UINT32"}
+                vp = {"pk": "value", "name": g.nid("p"), "pos": size, "bit": 0, "dop": vdop, "default": None}
+                params.extend([nrc, vp] if g.chance(70) else [vp, nrc])
+                values[vp["name"]] = g.pick(vals)
+                g.features.add("nrc")
     request = None
     if response:
         need = getattr(g, "req_need", 0)
